@@ -16,7 +16,7 @@ def validate_encoded(string):
 
 def validate_decoded(obj):
   if isinstance(obj, str):
-    validate_encoded(object)
+    validate_encoded(obj)
   else:
     raise gfapy.TypeError(
       "the class {} is incompatible with the datatype\n"
